@@ -38,6 +38,9 @@ C={
 "C16":("model_checking","bounded-exhaustive exploration of start-tag syntax: every piece sequence up to a length x tag names x HTML/SVG/MathML contexts x 3 encodings x every cut inside the tag on the real rewriter, getters compared with R-attr and html5ever, then every single edit + re-read",
  "For every start tag built from <=5 (quick) / <=6 (thorough) syntax pieces, 4 tag names, 4 contexts, UTF-8/windows-1252/Shift_JIS and every cut position inside the tag: tag_name, preserve-case name, attributes() (order, names, raw values), get/has_attribute (case-insensitive, first duplicate), is_self_closing, can_have_content and namespace_uri equal the reference; after each of 9 set_attribute/remove_attribute/set_tag_name edits a re-read reflects the edit.",
  "R-attr is cross-checked against html5ever on every UTF-8/HTML tag; br (a breakout tag) is not placed inside svg/math.","DESIGN.md §4 C16"),
+"C13":("model_checking","bounded-exhaustive exploration over all 36 ASCII-compatible encodings: documents built from per-encoding byte units x every 1-cut / 2-cut / byte-wise schedule on the real rewriter, handler-visible strings compared with encoding_rs whole-buffer decoding; inserted content compared with encoding_rs encoding; meta-charset histories with a sink monitor",
+ "For every encoding, every pair of units (valid multi-byte characters, ASCII-trail characters, lone lead bytes, invalid trails, BOM-like prefixes) in text, attribute name/value and comment, under every enumerated schedule (and 1100-unit runs cut around the decoder's 1 KiB buffer boundary), handlers read exactly the reference decoding; inserted content is encoded in the document encoding with NCRs for unmappable characters; a meta charset switches at most once, for later tokens only, with the sink told in between; the 4 non-ASCII-compatible encodings are refused.",
+ "encoding_rs (decode_without_bom_handling / encode) is the trusted reference.","DESIGN.md §4 C13"),
 "C01":("model_checking","bounded-exhaustive exploration of the real rewriter: all strings over two adversarial alphabets x observer configs x all 1-/2-cut, byte-wise and empty-write schedules; oracle = byte identity",
  "No execution of the real rewriter, over every string of the fragment alphabet (len<=3 quick/<=4 thorough) and byte alphabet (len<=4/<=6), every observer handler set of a 16-entry menu, strict on/off, 4 encodings and every listed schedule, emits anything but the input (or a prefix on a strict-mode ambiguity error).",
  "Coverage statement inside the stated alphabets/bounds only; the round-trip exception is decided by encoding_rs.","DESIGN.md §4 C01"),
